@@ -5,7 +5,7 @@
    exhibit accepted-but-unsatisfiable regions in closed form; that an accepted configuration runs is
    checked on the real code under the simulator, region by region. *)
 From Coq Require Import ZArith String List Bool.
-From EL Require Import Base.Dec Base.PyLib Proofs.C19Proofs Gen.InputCheck Gen.ConfigInter Gen.ConfigFile Gen.ConfigTop.
+From EL Require Import Base.Dec Base.PyLib Proofs.DictFacts Proofs.C19Proofs Gen.InputCheck Gen.ConfigInter Gen.ConfigFile Gen.ConfigTop Gen.BaseExec.
 Import ListNotations.
 Local Open Scope string_scope.
 
@@ -61,3 +61,19 @@ Example C19_zero_workers :
   workers_of (direct (VInt 8) VNone (VStr "local") (VInt 1) (VDict [(VStr "cores", VInt 2)]) VNone (VBool true) VNone)
   = Some (VInt 0).
 Proof. vm_compute. reflexivity. Qed.
+
+(* the submit-time check (ExecutorBase.submit): requests above the executor's limit are refused,
+   for every limit — zero included — and every request ... *)
+Theorem C19_submit_refuses_oversized_request :
+  forall rd c m,
+    DictFacts.assoc "cores" rd = Some (VInt c) -> (c >? m)%Z = true ->
+    submit_cores_check (self_with (VInt m)) (DictFacts.sdict rd) = Err "ValueError".
+Proof. exact submit_check_rejects. Qed.
+Print Assumptions C19_submit_refuses_oversized_request.
+
+(* ... but only where the executor carries a limit: REFUTED in general — without _max_cores
+   (every executor created with disable_dependencies=True) the check is inert (finding D14c) *)
+Theorem C19_refuted_submit_check_inert :
+  forall rd, submit_cores_check (self_with VNone) (DictFacts.sdict rd) = Ok (VTuple [DictFacts.sdict rd]).
+Proof. exact submit_check_inert_without_limit. Qed.
+Print Assumptions C19_refuted_submit_check_inert.
